@@ -644,7 +644,7 @@ func vfC16Pre(t *testing.T, res *vfResult, c vfC16Case) {
 	synctest.Wait()
 	res.NonTrivial(c.ID())
 	if call != nil && !call.Returned.Load() {
-		res.Violate("C16:deadline-did-not-interrupt:"+c.Action, fmt.Sprintf("%s issued before the handshake with a 2 s deadline (no peer) is still blocked after 30 s; %s", call.Name, c.ID()), replay)
+		res.Violate("C16:deadline-did-not-interrupt:"+c.Action, fmt.Sprintf("%s issued with a 2 s deadline while no handshake had completed (no peer) is still blocked after 30 s; %s", call.Name, c.ID()), replay)
 	} else if call != nil {
 		res.Seen("pre_handshake_results", c.Action+": "+vfErrNorm(call.Err))
 	}
@@ -1183,6 +1183,69 @@ func vfC16CloseImported(t *testing.T, res *vfResult, idx int) {
 	w.close()
 }
 
+// vfC16DeadlineBehindHandshake (real time: a goroutine parked on a plain mutex would freeze a virtual clock): another
+// goroutine is already inside HandshakeContext (no peer, 8 s to go); a Read / Write with a 300 ms deadline, or a
+// HandshakeContext with a 300 ms context, has to wait for that handshake - and its own deadline still counts.
+func vfC16DeadlineBehindHandshake(res *vfResult, iter int) {
+	res.Eval(1)
+	variants := []string{"12-ecdsa", "13", "12-psk-cbc", "13-cid"}
+	v := variants[iter%len(variants)]
+	op := []string{"Read", "Write", "HandshakeContext"}[(iter/len(variants))%3]
+	actor := []string{"c", "s"}[(iter/12)%2]
+	cfg := vfC16Cfg(v)
+	co, so := cfg.Options(nil, nil)
+	n := vfNewNet()
+	n.SetOnSend(func(*vfNet, *vfWire) {}) // nobody answers
+	p, err := vfNewPair(n, co, so)
+	if err != nil {
+		return
+	}
+	x := p.C
+	if actor == "s" {
+		x = p.S
+	}
+	id := fmt.Sprintf("deadline-behind-handshake/%s/%s/%s", v, actor, op)
+	res.NonTrivial(fmt.Sprintf("%s/%d", id, iter))
+	hctx, hcancel := context.WithTimeout(context.Background(), 8*time.Second)
+	defer hcancel()
+	first := make(chan struct{})
+	go func() { defer close(first); _ = x.Conn.HandshakeContext(hctx) }()
+	time.Sleep(100 * time.Millisecond)
+	start := time.Now()
+	done := make(chan error, 1)
+	switch op {
+	case "Read":
+		_ = x.Conn.SetReadDeadline(time.Now().Add(300 * time.Millisecond))
+		go func() { _, e := x.Conn.Read(make([]byte, 64)); done <- e }()
+	case "Write":
+		_ = x.Conn.SetWriteDeadline(time.Now().Add(300 * time.Millisecond))
+		go func() { _, e := x.Conn.Write([]byte("early")); done <- e }()
+	default:
+		cctx, ccancel := context.WithTimeout(context.Background(), 300*time.Millisecond)
+		defer ccancel()
+		go func() { done <- x.Conn.HandshakeContext(cctx) }()
+	}
+	select {
+	case e := <-done:
+		res.Count("deadlines_behind_handshake_honoured", 1)
+		res.Seen("behind_handshake_results", op+": "+vfErrNorm(e))
+		if e == nil {
+			res.Violate("C16:deadline-ignored:behind-handshake:"+op, fmt.Sprintf("%s: the call returned nil although no peer exists", id), map[string]any{"iter": iter, "behind": true})
+		}
+	case <-time.After(4 * time.Second):
+		res.Violate("C16:deadline-did-not-interrupt:behind-handshake:"+op,
+			fmt.Sprintf("%s: %s with a 300 ms deadline, issued while another goroutine is inside HandshakeContext (no peer, 8 s context), is still blocked %v later", id, op, time.Since(start).Round(100*time.Millisecond)),
+			map[string]any{"iter": iter, "behind": true})
+	}
+	hcancel()
+	p.Close()
+	<-first
+	select {
+	case <-done:
+	case <-time.After(10 * time.Second):
+	}
+}
+
 // vfC16CloseRace: the peer closes; this side's read loop answers with close_notify, and that datagram is still
 // being written (socket slow for a moment) when the application calls Close here as well. One close_notify may
 // leave this endpoint. Real time, for the same reason as vfC16ParkedWrite.
@@ -1261,11 +1324,14 @@ func TestVF_C16(t *testing.T) {
 				ParkDL bool      `json:"parked_deadline"`
 				Race   bool      `json:"race"`
 				CloseI *int      `json:"close_imported"`
+				Behind bool      `json:"behind"`
 			} `json:"replay"`
 		}
 		vfLoadReplay(t, &rf)
 		vfDumpWire = true
-		if rf.Replay.CloseI != nil {
+		if rf.Replay.Iter != nil && rf.Replay.Behind {
+			vfC16DeadlineBehindHandshake(res, *rf.Replay.Iter)
+		} else if rf.Replay.CloseI != nil {
 			synctest.Test(t, func(t *testing.T) { vfC16CloseImported(t, res, *rf.Replay.CloseI) })
 		} else if rf.Replay.Iter != nil && rf.Replay.ParkDL {
 			vfC16ParkedWriteDeadline(res, *rf.Replay.Iter)
@@ -1292,6 +1358,7 @@ func TestVF_C16(t *testing.T) {
 	vfParallel(vfPick(20, 200), func(_, i int) { vfC16CloseRace(res, i) })
 	vfParallel(vfPick(10, 100), func(_, i int) { vfC16ParkedWriteDeadline(res, i) })
 	vfParallel(vfPick(4, 16), func(_, i int) { vfC16CloseFromCallback(res, i) })
+	vfParallel(vfPick(24, 72), func(_, i int) { vfC16DeadlineBehindHandshake(res, i) })
 	ns := vfPick(150, 3000)
 	vfParallel(ns, func(_, i int) { vfC16Stress(res, i) })
 	res.Sample(map[string]any{"placements": len(cases), "stress_iterations": ns, "x_read_results": res.SetSize("x_read_results")})
